@@ -14,6 +14,7 @@ func init() {
 		Explanation: "Conditions under which the consolidated output at end of stream is independent of the trigger configuration, each decided on all paths: " +
 			"ORD7: after the source ends without error, CustomTriggerGroupBy.Run calls EndOfStreamReached() and then triggers once more before returning, so every key still pending is emitted; a source error is returned without that. " +
 			"FLUSH: every trigger's Poll hands out all remaining keys once end of stream was signalled (Counting, Watermark, EndOfStream) and MultiTrigger forwards every call to every child (shared with C17). " +
+			"KEYRCV: for every record (count-before ∈ {0,1,2} × add/retract, including the retraction that empties a group) the callback calls trigger.KeyReceived(key) and then triggers. " +
 			"ORD4: when a key fires, the previously sent row for that key is retracted before the new row is emitted, the new row is remembered iff one is emitted, and a key whose group is gone only retracts — so superseded results never survive in the consolidated output (cases current-group present/absent × previous-row present/absent). " +
 			"NULLSKIP/EMPTY/ABS5: both group-by nodes update aggregates identically (shared with C03), so SimpleGroupBy (no trigger) and CustomTriggerGroupBy agree on the values.",
 		NotDecided: []string{"the equality of consolidated outputs itself (quantifies over histories)", "duplicate firing of one key by several triggers in one Poll (retract+re-emit, harmless for the consolidated result)"},
@@ -30,7 +31,9 @@ func runC16(c *core.Ctx) {
 	c.Rule("NULLSKIP", "both group-by nodes update aggregates identically")
 	c.Rule("EMPTY", "Trigger only when the set is non-empty")
 	c.Rule("ABS5", "per-key record count and group removal")
+	c.Rule("KEYRCV", "every record's key is reported to the trigger before triggering")
 	checkEndOfStreamOrder(c)
+	checkKeyReceived(c, ids)
 	checkTriggerRetraction(c, ids)
 	checkWatermarkPoll(c)
 	checkEOSPoll(c)
@@ -257,4 +260,93 @@ func checkTriggerRetraction(c *core.Ctx, ids map[string]int64) {
 		}
 	}
 	c.Floor("ORD4", 4, "group present × previous row present")
+}
+
+// checkKeyReceived (KEYRCV): for every record — also a retraction that empties its group — the
+// trigger is told about the key before the due keys are triggered; otherwise a result that was
+// already emitted for the key is never superseded.
+func checkKeyReceived(c *core.Ctx, ids map[string]int64) {
+	p := c.Prog
+	fn := p.Func("execution/nodes", "(*CustomTriggerGroupBy).Run")
+	key := "execution/nodes.(*CustomTriggerGroupBy).Run/record callback"
+	if fn == nil {
+		c.Unknown("KEYRCV", key, 0, "anchor not found")
+		return
+	}
+	rcs := nodeRunCalls(p, fn)
+	if len(rcs) != 1 || rcs[0].Produce == nil {
+		c.Unknown("KEYRCV", key, fn.Decl.Pos(), "expected one source.Run with a literal produce callback")
+		return
+	}
+	lit := rcs[0].Produce
+	for _, k := range []int64{0, 1, 2} {
+		for _, retract := range []bool{false, true} {
+			if k == 0 && retract {
+				continue
+			}
+			k, retract := k, retract
+			in := newInterp(p, fn)
+			in.MaxPaths = 20000
+			in.Hooks.Assert = assertOK
+			in.Hooks.Field = func(st *absint.State, base absint.Val, sel string) (absint.Val, bool) {
+				if sel == "Retraction" {
+					return absint.Bool(retract), true
+				}
+				return nil, false
+			}
+			in.Hooks.Call = chainCall(func(st *absint.State, call *ast.CallExpr, callee string, recv absint.Val, args []absint.Val) (absint.Val, bool) {
+				switch {
+				case callee == "execution.Expression.Evaluate":
+					return absint.Tuple{Elems: []absint.Val{absint.S("v"), absint.Nil{}}}, true
+				case msLookup.MatchString(callee):
+					if k == 0 {
+						return absint.Nil{}, true
+					}
+					return st.NewObj("item", map[string]absint.Val{"OverallRecordCount": absint.Int(k), "Aggregates": absint.S("AGGS"), "AggregatedSetSize": absint.S("SIZES")}), true
+				case callee == "execution.Trigger.KeyReceived":
+					st.Emit("KEYRECEIVED", call.Pos(), args...)
+					return absint.S("void"), true
+				case callee == "execution/nodes.(*CustomTriggerGroupBy).trigger":
+					st.Emit("TRIGGER", call.Pos())
+					return absint.Nil{}, true
+				case callee == "execution/nodes.Aggregate.Add":
+					return absint.S("empty"), true
+				}
+				return nil, false
+			}, ctorHook(ids), errorfHook)
+			outs, err := runLit(in, lit, nil, "")
+			ckey := fmt.Sprintf("%s/count=%d,%s", key, k, map[bool]string{false: "add", true: "retract"}[retract])
+			if err != nil {
+				c.Unknown("KEYRCV", ckey, lit.Pos(), err.Error())
+				continue
+			}
+			bad := ""
+			done := 0
+			for _, o := range outs {
+				if o.Kind != "return" || len(o.Values) != 1 || isNonNilErr(o.Values[0]) {
+					continue
+				}
+				done++
+				seq := ""
+				for _, e := range o.Events {
+					switch e.Name {
+					case "KEYRECEIVED":
+						seq += "K"
+						if len(e.Args) != 1 || !strings.HasPrefix(e.Args[0].Canon(), "make@") {
+							bad = "the trigger is told a key other than the record's group key: " + e.String()
+						}
+					case "TRIGGER":
+						seq += "T"
+					}
+				}
+				if seq != "KT" {
+					bad = fmt.Sprintf("for every record the callback must tell the trigger about the key and then trigger the due keys (K,T); with %d records in the group and retraction=%v it does %q — a result already emitted for the key would never be superseded", k, retract, seq)
+				}
+			}
+			if bad == "" && done == 0 {
+				bad = "no successful path"
+			}
+			c.Decide(bad == "", "KEYRCV", ckey, lit.Pos(), len(outs), "KeyReceived(key) → trigger", bad)
+		}
+	}
 }
